@@ -491,7 +491,7 @@ class NoSetAttr:
 
     @cached
     def _clschecker(self, attr):
-        return self._callchecker(type, attr)
+        return self._callchecker(attr, type)
 
     @cached
     def _selfchecker(self, attr):
